@@ -80,6 +80,19 @@ def truncations(data, limit=None, rng=None):
     ks = set(range(0, min(n, 64))) | set(range(max(0, n - 24), n + 1)) | {rng.randrange(n) for _ in range(limit)}
     return [data[:k] for k in sorted(ks)][:limit + 90]
 
+NUM_EXTREMES = [b'0', b'1', b'255', b'256', b'65535', b'65536', b'2147483647', b'2147483648', b'4294967295', b'4294967296',
+                b'9223372036854775807', b'9223372036854775808', b'18446744073709551615', b'18446744073709551616',
+                b'4611686018427387904', b'1000000000000', b'99999999999999999999999999', b'-1', b'00000000000000000001', b'']
+
+def text_number_extremes(data):
+    """every decimal number token of a text file replaced, one at a time, by each extreme value"""
+    import re
+    out = []
+    for m in re.finditer(rb'\d+', data):
+        for e in NUM_EXTREMES:
+            out.append(data[:m.start()] + e + data[m.end():])
+    return out
+
 def corrupt1(rng, data, header=64):
     if not data: return data
     d = bytearray(data)
